@@ -40,6 +40,15 @@ func c17Consumer(n int, recv func() (interface{}, bool), from string) {
 }
 
 func c17Oracle(prop string, n int, overflowSite string, attributable bool) func(tr *mc.Trace) []h.Violation {
+	return c17OracleR(prop, n, overflowSite, attributable, false)
+}
+
+// c17OracleR: with reconnect == true the scenario spaces its telegrams in virtual time. The known
+// finding's mechanism (parked goroutines reach the channel in scheduler order) can only reorder
+// telegrams accepted at the same instant: every goroutine reaches its blocking send before the
+// virtual clock advances. A telegram overtaken by one that was accepted at a later instant is
+// therefore a different defect, whatever goroutines were involved.
+func c17OracleR(prop string, n int, overflowSite string, attributable bool, reconnect bool) func(tr *mc.Trace) []h.Violation {
 	return func(tr *mc.Trace) []h.Violation {
 		vs := generic(tr, prop, true)
 		// acceptance order = order of the acknowledgements (tunnel) / of delivery to serve (router):
@@ -48,6 +57,19 @@ func c17Oracle(prop string, n int, overflowSite string, attributable bool) func(
 		overflow := map[int]bool{}
 		accepted := 0
 		pendingSpawn := false
+		accT := map[int]mc.Duration{} // virtual instant at which telegram i was accepted
+		if reconnect {
+			// across epochs the sequence numbers restart: number the acknowledgements as they come
+			n0 := 0
+			for _, e := range tr.Log {
+				if x, ok := e.V.(fakesock.Sent); ok && x.Err == nil {
+					if _, ok := x.Svc.(*knxnet.TunnelRes); ok {
+						accT[n0] = e.T
+						n0++
+					}
+				}
+			}
+		}
 		for _, e := range tr.Log {
 			switch x := e.V.(type) {
 			case mc.Spawned:
@@ -90,6 +112,10 @@ func c17Oracle(prop string, n int, overflowSite string, attributable bool) func(
 			if got[i] < got[i-1] {
 				// got[i] was overtaken by got[i-1]
 				cls := prop + ":inversion:direct"
+				if ta, ok := accT[got[i]]; ok && ta < accT[got[i-1]] {
+					vs = append(vs, h.Violation{Class: prop + ":inversion:across-time", Msg: fmt.Sprintf("received order %v: telegram %d, accepted at %v, was overtaken by telegram %d, accepted later at %v (parked deliveries of one instant may swap - known finding - but a later telegram cannot get ahead that way)", got, got[i], ta, got[i-1], accT[got[i-1]])})
+					break
+				}
 				if attributable {
 					if overflow[got[i]] {
 						cls = prop + ":inversion:overflow-goroutine"
@@ -123,6 +149,48 @@ func c17Tunnel(n int) func() {
 			sock.Deliver(&knxnet.TunnelReq{Channel: 7, SeqNumber: uint8(i), Payload: Msg(i)})
 		}
 		c17Consumer(n, func() (interface{}, bool) { m, ok := t.Inbound().Recv2(); return m, ok }, "tunnel")
+		t.Close()
+	}
+}
+
+// c17TunnelReconnect: two telegrams are parked (reader stalled), the gateway ends the connection,
+// the client reconnects, two more telegrams arrive at later instants, then the reader drains.
+func c17TunnelReconnect() func() {
+	return func() {
+		sock := fakesock.New("udp")
+		gw := NewGateway(sock, 7)
+		t, err := knx.NewTunnelOnSocket(sock, knxnet.TunnelLayerData, TCfg(100, 350, 100000))
+		if err != nil {
+			return
+		}
+		gw.NextChannel = 8
+		sock.Deliver(&knxnet.TunnelReq{Channel: 7, SeqNumber: 0, Payload: Msg(0)})
+		mc.Sleep(2 * ms)
+		sock.Deliver(&knxnet.TunnelReq{Channel: 7, SeqNumber: 1, Payload: Msg(1)})
+		mc.Sleep(2 * ms)
+		if mc.Choose(2, mc.Free) == 1 {
+			sock.Deliver(&knxnet.TunnelReq{Channel: 7, SeqNumber: 2, Payload: Msg(2)})
+			mc.Sleep(2 * ms)
+		} else {
+			m, _ := t.Inbound().Recv2() // the application takes one, the rest stays parked
+			mc.Log(Rx{ID: MsgID(m), From: "tunnel"})
+			sock.Deliver(&knxnet.TunnelReq{Channel: 7, SeqNumber: 2, Payload: Msg(2)})
+			mc.Sleep(2 * ms)
+		}
+		sock.Deliver(&knxnet.DiscReq{Channel: 7})
+		mc.Sleep(10 * ms)
+		sock.Deliver(&knxnet.TunnelReq{Channel: 8, SeqNumber: 0, Payload: Msg(3)})
+		mc.Sleep(2 * ms)
+		sock.Deliver(&knxnet.TunnelReq{Channel: 8, SeqNumber: 1, Payload: Msg(4)})
+		mc.Sleep(2 * ms)
+		for {
+			c0 := mc.RecvC(t.Inbound())
+			c1 := mc.RecvC(mc.After(50 * ms))
+			if mc.Select(false, c0, c1) != 0 || !c0.Ok {
+				break
+			}
+			mc.Log(Rx{ID: MsgID(c0.V), From: "tunnel"})
+		}
 		t.Close()
 	}
 }
@@ -236,6 +304,7 @@ func init() {
 			Run: k.f(64), Check: c17Oracle("C17", 64, k.site, k.attr),
 		})
 	}
+	register("both", &h.Scenario{Name: "C17-tunnel-parked-across-reconnect", Prop: "C17", P: 1, F: 0, D: 1, Run: c17TunnelReconnect(), Check: c17OracleR("C17", 5, "tunnel.go:pushInbound", false, true)})
 	// unbounded preemptions for the smallest burst (classic context bounding with P=2, no delay bound)
 	register("thorough", &h.Scenario{Name: "C17-tunnel-burst2-p2", Prop: "C17", P: 2, F: 0, D: 0, Run: c17Tunnel(2), Check: c17Oracle("C17", 2, "tunnel.go:pushInbound", true), MaxExe: 3000000})
 	register("thorough", &h.Scenario{Name: "C17-grouplayer-isolated-burst3-p2", Prop: "C17", P: 2, F: 0, D: 0, Run: c17GroupLayer(3), Check: c17Oracle("C17", 3, "", false), MaxExe: 3000000})
